@@ -75,7 +75,7 @@ KEY_OF_FIX = {v: k for k, v in PEEL.items()}
 def floors(tier):
     k = 1 if tier == "quick" else 4
     cl = {f"algo:{a}": 6 * k for a in ALGOS}
-    cl.update({"ag:NONE": 12 * k, "ag:SIMPLE": 8 * k, "ag:MUTATION_ANALYSIS": 5 * k})
+    cl.update({"ag:NONE": 12 * k, "ag:SIMPLE": 8 * k, "ag:MUTATION_ANALYSIS": 3 * k})
     cl.update({"budget:iterations": 12 * k, "budget:executions": 12 * k, "hashseed:random": 5 * k, "pair:same-hashseed": 3,
                "pair:different-hashseed": 30 * k})
     return {"evals": 40 * k, "distinct": 30 * k, "classes": cl}
@@ -133,10 +133,10 @@ def plan(tier, seed):
     rng = random.Random(seed * 1_000_003 + 16)
     rand = [_random_case(rng) for _ in range(8 if quick else 240)]
     # interleave so that every chunk gets a mix of cheap and expensive (MUTATION_ANALYSIS) cases
-    n_chunks = 16 if quick else 48
+    n_chunks = 32 if quick else 96
     cases = directed + rand
     # in the quick tier only a few diverging pairs per chunk are peeled (each level costs a full re-run of the pair)
-    return [{"name": "directed+random", "cases": cases[i::n_chunks], "max_peeled_cases": 1 if quick else 4} for i in range(n_chunks)]
+    return [{"name": "directed+random", "cases": cases[i::n_chunks], "max_peeled_cases": (1 if i % 2 == 0 else 0) if quick else 2} for i in range(n_chunks)]
 
 
 def _spec(ctx, case, proj, tag):
